@@ -973,6 +973,106 @@ impl C23 {
                 }
             }
         }
+
+        // --- add a filter on a fold's count (one, then a second one on the same fold) ---------------
+        // Kept last so that the random choices of the transformations above are unchanged. Added after
+        // seeded change C23-5 / C22-5 (a `!=` count filter next to `>=` kept the min-fold-size shortcut
+        // on): `q -> q + cf1 -> q + cf1 + cf2`, each step `rows' <+ rows`, operators drawn with a bias
+        // towards the (exclusion, lower bound) pairs, operands small integers around real fold sizes.
+        {
+            let mut cands = vec![];
+            for s in sites.iter().filter(|s| !s.under_fold) {
+                for (j, f) in node_at(q0, &s.path).fields.iter().enumerate() {
+                    if let Field::Edge { kind: Kind::Fold(_), .. } = f {
+                        cands.push((s.clone(), j));
+                    }
+                }
+            }
+            if let Some(i) = pick(rng, cands.len()) {
+                c.bump("add-count-filter", 0);
+                let (s, j) = &cands[i];
+                let excl = [Op::Neq, Op::NotOneOf];
+                let lower = [Op::Ge, Op::Gt];
+                let any = [Op::Eq, Op::Neq, Op::Lt, Op::Le, Op::Gt, Op::Ge, Op::OneOf, Op::NotOneOf];
+                let (op1, op2) = match rng.below(4) {
+                    0 => (*rng.pick(&excl), *rng.pick(&lower)),
+                    1 => (*rng.pick(&lower), *rng.pick(&excl)),
+                    _ => (*rng.pick(&any), *rng.pick(&any)),
+                };
+                let mut args = args0.clone();
+                let mut operand = |rng: &mut Rng, op: Op, args: &mut BTreeMap<String, FieldValue>| {
+                    let var = fresh_var("mc");
+                    let one = |rng: &mut Rng| {
+                        let x = rng.below(4) as i64;
+                        if rng.chance(1, 2) { FieldValue::Int64(x) } else { FieldValue::Uint64(x as u64) }
+                    };
+                    let v = if matches!(op, Op::OneOf | Op::NotOneOf) {
+                        let n = 1 + rng.below(2);
+                        FieldValue::List((0..n).map(|_| one(rng)).collect::<Vec<_>>().into())
+                    } else {
+                        one(rng)
+                    };
+                    args.insert(var.clone(), v);
+                    Arg::Var(var)
+                };
+                let a1 = operand(rng, op1, &mut args);
+                // half of the time the chain starts from the query with nothing observed in the fold (no
+                // output inside, no count output): the shape in which the engine may stop expanding early
+                let strip = rng.chance(1, 2);
+                let mut qb = q0.clone();
+                let mut left0 = BASE;
+                if strip {
+                    if let Field::Edge { kind: Kind::Fold(fds), node, .. } = &mut node_at_mut(&mut qb, &s.path).fields[*j] {
+                        fds.retain(|d| !matches!(d, FDir::CountOutput(_)));
+                        for_each_node_mut(node, &mut |n: &mut Node| {
+                            for f in n.fields.iter_mut() {
+                                match f {
+                                    Field::Prop { dirs, .. } => dirs.retain(|d| !matches!(d, Dir::Output(_))),
+                                    Field::Edge { kind: Kind::Fold(fds), .. } => fds.retain(|d| !matches!(d, FDir::CountOutput(_))),
+                                    _ => {}
+                                }
+                            }
+                        });
+                    }
+                    match compile_variant(w, qb.clone(), args0.clone(), "add-count-filter", &mut c) {
+                        Some(vb) => {
+                            left0 = out.len();
+                            out.push(Planned { variant: vb, link: None, data: None });
+                        }
+                        None => qb = q0.clone(),
+                    }
+                }
+                let mut q1 = qb.clone();
+                let k1 = rng.below(4);
+                if let Field::Edge { kind: Kind::Fold(fds), .. } = &mut node_at_mut(&mut q1, &s.path).fields[*j] {
+                    let k = k1.min(fds.len());
+                    fds.insert(k, FDir::CountFilter(op1, a1));
+                }
+                let args1 = args.clone();
+                let a2 = operand(rng, op2, &mut args);
+                let mut q2 = q1.clone();
+                let k2 = rng.below(4);
+                if let Field::Edge { kind: Kind::Fold(fds), .. } = &mut node_at_mut(&mut q2, &s.path).fields[*j] {
+                    let k = k2.min(fds.len());
+                    fds.insert(k, FDir::CountFilter(op2, a2));
+                }
+                if let Some(v1) = compile_variant(w, q1, args1, "add-count-filter", &mut c) {
+                    let i1 = out.len();
+                    out.push(Planned {
+                        variant: v1,
+                        link: Some(("add-count-filter".into(), "add-filter-adds-rows".into(), "sub".into(), left0, None, vec![])),
+                        data: None,
+                    });
+                    if let Some(v2) = compile_variant(w, q2, args, "add-count-filter", &mut c) {
+                        out.push(Planned {
+                            variant: v2,
+                            link: Some(("add-count-filter-2".into(), "add-filter-adds-rows".into(), "sub".into(), i1, None, vec![])),
+                            data: None,
+                        });
+                    }
+                }
+            }
+        }
         out
     }
 }
@@ -1108,7 +1208,7 @@ impl Prop for C23 {
         "C23"
     }
     fn rule(&self) -> &'static str {
-        "per seed: generated worlds as for C01 (schemas x 2 datasets x ~10 type-directed queries accepted by the real frontend and argument validation; generator setting QueryKnobs::clean(), i.e. without the triggers of the known defects F-4/F-5). For every accepted query one randomly chosen applicable site per transformation: add-filter (a type-correct filter with a fresh variable drawn mostly from the property's values in the dataset, any operator, on a property outside folds: rows' <+ rows), add-filter-tag (=, !=, <, <=, >, >= against a type-compatible tag defined at the same or an enclosing vertex: rows' <+ rows), partition (outside folds and optional scopes, an operator with complement: rows(q) is a merge of rows(q+f) and rows(q+not f)), eq-oneof (`= $x` against `one_of [$x]` on any property, folds included, half of the operands in the other integer representation: equal rows), recurse-raise / recurse-lower (depth d -> d+1|d+2, d-1 outside folds: sublist), make-optional (a plain edge outside folds, also above folds with count filters); (query, dataset) pairs whose original result exceeds 1500 rows are not transformed (150 rows for recurse-raise), counted under skipped_known_defect of `(all)` / `recurse-raise`, rename-outputs / rename-tags (a permutation of the existing names or fresh names in reverse order), reorder-props (swap of two adjacent selections at least one of which is a property, anywhere: identical row sequence), reorder-edges (swap of two adjacent edges outside folds: equal multisets), param-edge (an edge with a declared parameter, plain or folded, rewritten to another parameter value plus `id @filter(<)` in a dataset whose adjacency for the original parameter tuple is the filtered adjacency of the new one: equal rows). Transformed queries rejected by the frontend (e.g. a tag used before its definition after a swap) are counted and skipped. Every original and transformed query is sent per dataset as (spec-exec ...) [model = Lean Spec] (queries with a fold-count filter >=/> on a variable additionally as (exec ...) [model = Interp over the real IR], so that a Spec mismatch can be classified as the known fold-limit truncation F-23/F-29); the relation is checked on the engine's rows. A case is non-trivial (nt:<kind>) when the left query returned at least one row on that dataset; nt:<kind>:strict when the transformation changed the row sequence."
+        "per seed: generated worlds as for C01 (schemas x 2 datasets x ~10 type-directed queries accepted by the real frontend and argument validation; generator setting QueryKnobs::clean(), i.e. without the triggers of the known defects F-4/F-5). For every accepted query one randomly chosen applicable site per transformation: add-filter (a type-correct filter with a fresh variable drawn mostly from the property's values in the dataset, any operator, on a property outside folds: rows' <+ rows), add-filter-tag (=, !=, <, <=, >, >= against a type-compatible tag defined at the same or an enclosing vertex: rows' <+ rows), partition (outside folds and optional scopes, an operator with complement: rows(q) is a merge of rows(q+f) and rows(q+not f)), eq-oneof (`= $x` against `one_of [$x]` on any property, folds included, half of the operands in the other integer representation: equal rows), recurse-raise / recurse-lower (depth d -> d+1|d+2, d-1 outside folds: sublist), make-optional (a plain edge outside folds, also above folds with count filters); (query, dataset) pairs whose original result exceeds 1500 rows are not transformed (150 rows for recurse-raise), counted under skipped_known_defect of `(all)` / `recurse-raise`, rename-outputs / rename-tags (a permutation of the existing names or fresh names in reverse order), reorder-props (swap of two adjacent selections at least one of which is a property, anywhere: identical row sequence), reorder-edges (swap of two adjacent edges outside folds: equal multisets), add-count-filter (a fold outside folds gets a filter on its count, then a second one: any of =, !=, <, <=, >, >=, one_of, not_one_of with a bias towards (exclusion, lower-bound) pairs, operands 0..3 in either integer representation; each step rows' <+ rows), param-edge (an edge with a declared parameter, plain or folded, rewritten to another parameter value plus `id @filter(<)` in a dataset whose adjacency for the original parameter tuple is the filtered adjacency of the new one: equal rows). Transformed queries rejected by the frontend (e.g. a tag used before its definition after a swap) are counted and skipped. Every original and transformed query is sent per dataset as (spec-exec ...) [model = Lean Spec] (queries with a fold-count filter >=/> on a variable additionally as (exec ...) [model = Interp over the real IR], so that a Spec mismatch can be classified as the known fold-limit truncation F-23/F-29); the relation is checked on the engine's rows. A case is non-trivial (nt:<kind>) when the left query returned at least one row on that dataset; nt:<kind>:strict when the transformation changed the row sequence."
     }
     fn generate(&self, tier: Tier, rng: &mut Rng) -> Vec<Case> {
         let (worlds, stats) = generate_worlds(rng, &world_knobs(tier));
